@@ -71,7 +71,9 @@ impl Input {
 // ---------------------------------------------------------------- generator (pure: uses only the Rng)
 
 const NAME_POOL: &[&str] = &["name", "body", "def", "params", "lhs", "rhs", "call", "fn", "args", "x", "y", "zz", "item", "stmt", "cls",
-    "a1", "b2", "k_9", "alpha", "omega", "mid", "Zed", "q", "w3", "value", "tgt"];
+    "a1", "b2", "k_9", "alpha", "omega", "mid", "Zed", "q", "w3", "value", "tgt",
+    // names that differ only in letter case (a case-insensitive sort key would leave their order to the hash map)
+    "Name", "NAME", "Alpha", "zed", "X", "Q"];
 const UNDERSCORE_POOL: &[&str] = &["_skip", "_tmp", "_"];
 const VALUE_POOL: &[&str] = &["1", "42", "\"s\"", "\"a b\"", "#true", "#false", "#null", "[1, 2]", "[]", "{1, 2, 3}", "(plus 1 2)", "@_m",
     "(node-type @_m)", "[@_m, 7]", "(c12-probe 41)", "{\"x\", \"y\"}", "[[1], {2}]"];
@@ -233,7 +235,9 @@ pub fn gen_input(rng: &mut Rng) -> Input {
         76..=87 => {
             kind = "valid:many-attributes";
             stanzas = base(rng, &mut supplied, &mut preamble);
-            let k_ = rng.range(4, 9); let names = pick_distinct(rng, NAME_POOL, k_);
+            let k_ = rng.range(4, 9); let mut names = pick_distinct(rng, NAME_POOL, k_);
+            // two names that differ only in letter case on one node
+            if rng.chance(50) { let (a, b) = *rng.pick(&[("kind", "Kind"), ("name", "Name"), ("x", "X"), ("alpha", "ALPHA")]); names.retain(|n| n.to_lowercase() != a); names.push(a.to_string()); names.push(b.to_string()); }
             let attrs: Vec<String> = names.iter().map(|n| format!("{} = {}", n, rng.pick(VALUE_POOL))).collect();
             let k_ = rng.range(2, 6); let enames = pick_distinct(rng, NAME_POOL, k_);
             let eattrs: Vec<String> = enames.iter().map(|n| format!("{} = {}", n, rng.pick(VALUE_POOL))).collect();
